@@ -10,11 +10,13 @@
 (*   Netmap_sim / NetmapRing_sim             scenario generation                                                 *)
 EXTENDS Netmap, Json
 
-VARIABLES pub, rt, okC08, okC06, n, nres, hist
+VARIABLES pub, rt, okC08, okC06, n, nres, nplain, hist
 mcvars == <<epoch, tickHeight, height, legacy, structured, count, cur, slot, v2, subs, journal, rej, config, ev,
-            pub, rt, okC08, okC06, n, nres, hist>>
+            pub, rt, okC08, okC06, n, nres, nplain, hist>>
 
-CONSTANTS MaxSteps, MaxEpoch, MaxRes, SimLen
+CONSTANTS MaxSteps, MaxEpoch, MaxRes, SimLen,
+  Starts,    \* ring configurations: epochs the first tick of a history may name
+  MaxPlain   \* ring configurations: ticks per history that do NOT publish a fresh map (unchanged or empty set)
 
 \* ---- constants (cfg files substitute these) ----
 Q_Keys       == {"k1", "k2"}
@@ -71,31 +73,36 @@ S_Counts     == -1..13
 S_CfgKeys    == {"c0", "cA", "cAB", "cB"}
 S_CfgVals    == {"", "x", "yy"}
 
-GhostInit == pub = <<>> /\ rt = 0 /\ okC08 = TRUE /\ okC06 = TRUE /\ n = 0 /\ nres = 0 /\ hist = <<>>
+GhostInit == pub = <<>> /\ rt = 0 /\ okC08 = TRUE /\ okC06 = TRUE /\ n = 0 /\ nres = 0 /\ nplain = 0 /\ hist = <<>>
 GhostNext ==
   /\ pub' = PubNext(pub, ev')
   /\ rt' = RtNext(rt, ev')
-  /\ okC08' = StepOk(okC08, ev')
+  /\ okC08' = StepOk(okC08, pub, ev')
   /\ okC06' = NoResize(okC06, ev')
   /\ n' = n + 1
   /\ nres' = IF ev'.act = "updateSnapshotCount" /\ ev'.res = "HALT" THEN nres + 1 ELSE nres
+  /\ nplain' = IF ev'.act = "newEpoch" /\ ev'.res = "HALT" THEN nplain + 1 ELSE nplain
 
 MCInit == Init /\ GhostInit
 MCNext == Next /\ GhostNext /\ hist' = <<>>
 MCSpec == MCInit /\ [][MCNext]_mcvars
 
-\* the snapshot ring: every tick publishes a fresh map (tickB), resizes to every count
+\* the snapshot ring: ticks that publish a fresh map (tickB), up to MaxPlain ticks that publish the unchanged
+\* or - after the node left - the EMPTY candidate set, resizes to every count; the first tick starts the
+\* numbering of the history at any epoch of Starts
+RingTargets == IF DOMAIN pub = {} THEN Starts ELSE {epoch + 1}
 RingStep ==
-  \E S \in SignerSets :
-     \/ TickB(S, "k1", epoch + 1, epoch + 1, height + 1)
-     \/ nres < MaxRes /\ \E c \in CountArgs : UpdateSnapshotCount(S, c, height + 1)
+  \/ \E S \in SignerSets, t \in RingTargets : TickB(S, "k1", t, t, height + 1)
+  \/ nres < MaxRes /\ \E S \in SignerSets, c \in CountArgs : UpdateSnapshotCount(S, c, height + 1)
+  \/ nplain < MaxPlain /\ \E t \in RingTargets : NewEpoch({"ALPHA"}, t, height + 1)
+  \/ nplain < MaxPlain /\ legacy["k1"].ex /\ UpdateStateIR({"ALPHA"}, Offline, "k1", height + 1)
 RingMCNext == RingStep /\ GhostNext /\ hist' = <<>>
 RingSpec == MCInit /\ [][RingMCNext]_mcvars
 
 Bounded == n <= MaxSteps /\ epoch <= MaxEpoch
 \* ev, height and tickHeight (determined by the block index) are not part of the fingerprint
-MCView == <<epoch, legacy, structured, count, cur, slot, v2, subs, journal, rej, config, pub, rt, okC08, okC06, n, nres>>
-RingView == <<epoch, legacy, structured, count, cur, slot, v2, pub, rt, nres>>
+MCView == <<epoch, legacy, structured, count, cur, slot, v2, subs, journal, rej, config, pub, rt, okC08, okC06, n, nres, nplain>>
+RingView == <<epoch, legacy, structured, count, cur, slot, v2, pub, rt, nres, nplain>>
 
 P_C06 == [][okC06 => /\ C06_Outcome(ev') /\ C06_Monotone(ev') /\ C06_FailInert(ev') /\ C06_Publish(ev', ApiNext)
                       /\ C06_Fanout(ev') /\ C06_Announced(ev') /\ C06_Subscribe(ev')]_mcvars
@@ -144,13 +151,22 @@ SimNext == \E b \in {IF n > 0 /\ RandomElement(1..6) = 1 THEN 1 ELSE 0} :
               SimStep(height + 1 - b) /\ GhostNext /\ hist' = Append(hist, HistRec(b))
 SimSpec == MCInit /\ [][SimNext]_mcvars
 
-\* C08 scope: consecutive ticks with fresh maps, resizes to every count, a few refused calls
+\* C08 scope: consecutive ticks (the first one may start the numbering near an encoding boundary) that publish
+\* fresh, unchanged, shrunk or empty maps in either format, resizes to every count, a few refused calls
+S_Starts == {1, 1, 1, 2, 120, 126, 127, 250, 254, 255, 32766, 65534}
 RingSimStep(h) ==
-  LET r == RandomElement(1..12)
+  LET r == RandomElement(1..16)
+      t == IF DOMAIN pub = {} THEN Pick(S_Starts) ELSE epoch + 1
+      k == Pick({"k1", "k2"})
   IN  CASE r <= 2 -> UpdateSnapshotCount({"ALPHA"}, Pick(0..12), h)
         [] r = 3  -> UpdateSnapshotCount(Pick({{"ALPHA"}, {"ALPHA"}, {"CMT"}, {}}), Pick(CountArgs), h)
-        [] r = 4  -> TickB(Pick({{"ALPHA"}, {"k1"}, {"ALPHA", "k1"}}), "k1", epoch + 1, epoch + 1, h)
-        [] OTHER  -> TickB({"ALPHA", "k1"}, "k1", epoch + 1, epoch + 1, h)
+        [] r = 4  -> TickB(Pick({{"ALPHA"}, {"k1"}, {"ALPHA", "k1"}}), "k1", t, t, h)
+        [] r = 5  -> UpdateStateIR({"ALPHA"}, Offline, k, h)
+        [] r = 6  -> AddPeerIR({"ALPHA"}, "k2", t, h)
+        [] r = 7  -> AddNode({"ALPHA", "k2"}, "k2", t, Online, h)
+        [] r = 8  -> UpdateStateIR({"ALPHA"}, Maint, k, h)
+        [] r <= 11 -> NewEpoch({"ALPHA"}, t, h)
+        [] OTHER  -> TickB({"ALPHA", "k1"}, "k1", t, t, h)
 RingSimNext == RingSimStep(height + 1) /\ GhostNext /\ hist' = Append(hist, HistRec(0))
 RingSimSpec == MCInit /\ [][RingSimNext]_mcvars
 
